@@ -24,7 +24,12 @@ META = {
                   "merged dims, block count, shape/storage offset/strides of every parameter and gradient block, storage identity, and "
                   "the effect of update_params), a gradient-layout stream (gradients whose memory layout differs from the parameter's - permuted storage, "
                   "channels_last, gapped as_strided - carrying their logical indices as values: every gradient block must list exactly view_offsets of the "
-                  "model's block; certified values-based checker C05_grad_values_checkb) plus random large shapes for the two utilities. "
+                  "model's block; certified values-based checker C05_grad_values_checkb), a parameter-layout stream (the same layouts + a row-padded narrow applied to the "
+                  "PARAMETER: blocks must be views of its storage addressing loc(logical indices of the model's blocks), update_params must move exactly those "
+                  "elements; a refusal at construction is accepted only where the proved-sound-and-complete predicate Blocking.viewable says no strided view of "
+                  "the merged shape exists; a copy is a violation), a multi-call stream (2-4 parameters, presence patterns changing between "
+                  "merge_and_block_gradients calls incl. same-count-different-pattern: selector, active parameter blocks and gradient blocks vs the model of the "
+                  "current pattern) plus random large shapes for the two utilities. "
                   "Second clause: `C05_blocked_eq_presplit` - in the structural model of step() (Masks.v, generic in the per-block "
                   "computation, instantiated with Optimizer.block_step in OptimizerMasks.v) two layouts whose histories present the same "
                   "per-block gradients give the same block values, states and step counter over any history; on the implementation the "
@@ -150,6 +155,105 @@ def gradlayout_case(args):
                 "g": [(list(b.shape), [int(x) for x in b.reshape(-1).tolist()]) for b in gb]}
     except Exception as ex:  # noqa
         return {"exc": type(ex).__name__ + ": " + str(ex)[:200]}
+
+
+def param_layouts(shape):
+    """Layouts of the gradient-layout stream plus a row-padded one (a narrow of a wider buffer)."""
+    return grad_layouts(shape) + [("pad", 1)]
+
+
+def make_strided(shape, layout, values, fill=0.0):
+    """A tensor with the given logical values stored with `layout`; returns it with the flat view of its whole buffer."""
+    import torch
+    n = math.prod(shape)
+    if layout[0] == "perm":
+        perm = list(layout[1])
+        inv = [perm.index(i) for i in range(len(perm))]
+        t = values.permute(perm).contiguous().permute(inv)
+        base = torch.as_strided(t, (n,), (1,), 0)
+    elif layout[0] == "gap":
+        cs = [math.prod(shape[i + 1:]) for i in range(len(shape))]
+        base = torch.full((2 * n + 8,), fill)
+        t = base.as_strided(shape, [2 * c for c in cs], layout[1])
+        t.copy_(values)
+    else:   # pad: last dim is a narrow of a wider row
+        wide = tuple(shape[:-1]) + (shape[-1] + layout[1],)
+        big = torch.full(wide, fill)
+        t = big[..., :shape[-1]]
+        t.copy_(values)
+        base = big.view(-1)
+    assert tuple(t.shape) == tuple(shape) and bool(torch.equal(t, values)) and t.untyped_storage().data_ptr() == base.untyped_storage().data_ptr()
+    return t, base
+
+
+def paramlayout_case(args):
+    """Parameter with a non-default memory layout; gradient contiguous or stored like the parameter."""
+    import torch
+    from distributed_shampoo.shampoo_types import MAX_PRECONDITIONER_DIM, PARAMS, USE_MERGE_DIMS
+    from distributed_shampoo.utils.shampoo_distributor import Distributor
+
+    shape, thr, merge, layout, gvar = args
+    try:
+        n = math.prod(shape)
+        index = torch.arange(n, dtype=torch.float32).reshape(shape)
+        p, pbase = make_strided(shape, layout, torch.zeros(shape))
+        po = p.storage_offset()
+        pstr = list(p.stride())
+        p.grad = index.clone() if gvar == "contig" else make_strided(shape, layout, index, fill=-1.0)[0]
+        try:
+            d = Distributor({PARAMS: [p], MAX_PRECONDITIONER_DIM: thr, USE_MERGE_DIMS: merge})
+        except RuntimeError as ex:        # param.view(merged_dims): "view size is not compatible with input tensor's size and stride"
+            return {"refused": str(ex)[:120], "pstr": pstr}
+        merged = list(d._global_merged_dims_list[0])
+        pb = d.local_blocked_params
+        ok_p = all(b.untyped_storage().data_ptr() == p.untyped_storage().data_ptr() and not b.requires_grad for b in pb)
+        geo = [_geo(b, po) for b in pb]
+        gb = d.merge_and_block_gradients()
+        g = [(list(b.shape), [int(x) for x in b.reshape(-1).tolist()]) for b in gb]
+        mb = d.local_masked_blocked_params
+        bases = [1000 * (k + 1) for k in range(len(mb))]
+        d.update_params(tuple(torch.arange(b.numel(), dtype=torch.float32).view(b.shape) + base for b, base in zip(mb, bases)))
+        lvals = [int(x) for x in p.reshape(-1).tolist()]
+        span = 1 + sum((sz - 1) * st for sz, st in zip(shape, pstr))
+        raw = [int(x) for x in torch.as_strided(p, (span,), (1,), po).tolist()]
+        ok_u = len(mb) == len(pb) and float(pbase.sum()) == float(p.sum())       # nothing outside the parameter's elements moved
+        return {"merged": merged, "pb": geo, "ok_p": bool(ok_p), "pstr": pstr, "bases": bases, "lvals": lvals, "raw": raw, "ok_u": bool(ok_u), "g": g}
+    except Exception as ex:  # noqa
+        return {"exc": type(ex).__name__ + ": " + str(ex)[:200]}
+
+
+def multicall_case(args):
+    """Several parameters in one Distributor, one merge_and_block_gradients call per presence pattern.
+    Gradient i carries 1000*i + logical index; observed parameter blocks are shifted by 1000 * (index of the
+    parameter whose storage they live in), so block k of the gradients must carry view_offsets of block k of
+    local_masked_blocked_params."""
+    import torch
+    from distributed_shampoo.shampoo_types import MAX_PRECONDITIONER_DIM, PARAMS, USE_MERGE_DIMS
+    from distributed_shampoo.utils.shampoo_distributor import Distributor
+
+    shapes, thr, merge, seq = args
+    try:
+        ps = [torch.zeros(sh) for sh in shapes]
+        owner = {p.untyped_storage().data_ptr(): i for i, p in enumerate(ps)}
+        d = Distributor({PARAMS: ps, MAX_PRECONDITIONER_DIM: thr, USE_MERGE_DIMS: merge})
+        out = []
+        for pat in seq:
+            for i, (p, on) in enumerate(zip(ps, pat)):
+                p.grad = (torch.arange(p.numel(), dtype=torch.float32).reshape(p.shape) + 1000 * i) if on else None
+            try:
+                gb = d.merge_and_block_gradients()
+                mb = d.local_masked_blocked_params
+                obs_p = []
+                for b in mb:
+                    i = owner.get(b.untyped_storage().data_ptr(), -7)      # unknown storage: offsets land below zero
+                    obs_p.append((1000 * i + b.storage_offset(), list(b.shape), list(b.stride())))
+                out.append({"sel": [bool(x) for x in d.local_grad_selector], "p": obs_p,
+                            "g": [(list(b.shape), [int(x) for x in b.reshape(-1).tolist()]) for b in gb]})
+            except Exception as ex:  # noqa
+                out.append({"exc": type(ex).__name__ + ": " + str(ex)[:200]})
+        return out
+    except Exception as ex:  # noqa
+        return [{"exc": type(ex).__name__ + ": " + str(ex)[:200]} for _ in seq]
 
 
 def _ref_offsets(geo):
@@ -353,8 +457,44 @@ def run(ck: Check) -> None:
     gwork = [(sh, thr, mg, lay) for sh in shapes_upto(gmaxn, 4) if 2 <= len(sh) <= 4
              for thr in gthrs for mg in (True, False) for lay in grad_layouts(sh)]
 
+    # ---- (a4) parameter-layout stream: the PARAMETER has a non-default memory layout ----------------
+    pthrs = (1, 2, 3, 5, 7, 1024) if thorough else (2, 3, 1024)
+    pmaxn = gmaxn if thorough else 16
+    pwork = []
+    for sh in shapes_upto(pmaxn, 4):
+        if 2 <= len(sh) <= 4:
+            for thr in pthrs:
+                for mg in (True, False):
+                    for lay in param_layouts(sh):
+                        pwork.append((sh, thr, mg, lay, ("contig", "same")[len(pwork) % 2]))
+
+    # ---- (a5) multi-call stream: several parameters, presence patterns changing between calls --------
+    pool_shapes = ((4, 6), (6, 4), (4, 6), (3,), (5,), (2, 3), (7,), (2, 2, 2), (4,), (1, 5), (9,), (3, 3))
+    qwork = []
+    for sh, thr in (((4, 6), 4), ((4, 6), 3), ((5,), 2), ((2, 3), 1024), ((3, 3), 2)):     # two equal parameters: every sequence of 3 patterns
+        pats = [(a, b) for a in (True, False) for b in (True, False)]
+        for s0 in pats:
+            for s1 in pats:
+                for s2 in pats:
+                    qwork.append(((sh, sh), thr, True, (s0, s1, s2)))
+    for _ in range(1500 if thorough else 150):
+        npar = rng.randint(2, 4)
+        shs = [rng.choice(pool_shapes) for _ in range(npar)]
+        if rng.random() < 0.6:
+            shs[rng.randrange(npar)] = shs[0]          # make equal block counts likely
+        seq = []
+        for _ in range(rng.randint(3, 6)):
+            if seq and rng.random() < 0.4:             # rotate the previous pattern: same count where shapes are equal, different parameters
+                k = rng.randint(1, npar - 1)
+                seq.append(tuple(seq[-1][k:] + seq[-1][:k]))
+            else:
+                seq.append(tuple(rng.random() < 0.5 for _ in range(npar)))
+        qwork.append((tuple(shs), rng.choice((2, 3, 4, 1024)), rng.random() < 0.7, tuple(seq)))
+
     with mp.get_context("fork").Pool(16) as pool:
         ires_async = pool.map_async(inv_case, iwork, chunksize=4)
+        pres = pool.map(paramlayout_case, pwork, chunksize=64)
+        qres = pool.map(multicall_case, qwork, chunksize=8)
         dres = pool.map(dist_case, dwork, chunksize=64)
         gres = pool.map(gradlayout_case, gwork, chunksize=64)
         mres = pool.map(merge_case, mwork, chunksize=256)
@@ -386,7 +526,28 @@ def run(ck: Check) -> None:
             gitems.append("false")
         else:                       # C05 asks for the index sets only; whether a gradient block aliases the gradient's storage is measured, not judged
             gitems.append(f"(agree_grad_values {sh_thr_mg(w[:3])} {zs(r['merged'])} {gvals(r['g'])})")
+    pitems = []
+    for w, r in zip(pwork, pres):
+        if "exc" in r:
+            pitems += ["false", "false", "false"]
+        elif "refused" in r:        # accepted only where no strided view of the merged shape exists for this layout
+            pitems += [f"negb (viewable_layout {zs(w[0])} {zs(r['pstr'])} {w[1]} {coq_bool(w[2])})", "true", "true"]
+        else:
+            pitems.append(f"andb {coq_bool(r['ok_p'])} (agree_param_layout {zs(w[0])} {zs(r['pstr'])} {w[1]} {coq_bool(w[2])} {zs(r['merged'])} {views(r['pb'])})")
+            pitems.append(f"andb {coq_bool(r['ok_u'])} (agree_update {sh_thr_mg(w[:3])} {zs(r['bases'])} {zs(r['lvals'])})")
+            pitems.append(f"(agree_grad_values {sh_thr_mg(w[:3])} {zs(r['merged'])} {gvals(r['g'])})")
+    qitems, qmap = [], []
+    for qi, (w, rs) in enumerate(zip(qwork, qres)):
+        shl = "[" + "; ".join(zs(sh) for sh in w[0]) + "]"
+        for ci, (pat, r) in enumerate(zip(w[3], rs)):
+            qmap.append((qi, ci))
+            if "exc" in r:
+                qitems.append("false")
+            else:
+                qitems.append(f"agree_multi {shl} {w[1]} {coq_bool(w[2])} [{'; '.join(map(coq_bool, pat))}] [{'; '.join(map(coq_bool, r['sel']))}] {views(r['p'])} {gvals(r['g'])}")
     dflat = eval_items(ck, "c05_d", ditems, 400)
+    pflat = eval_items(ck, "c05_p", pitems, 600)
+    qflat = eval_items(ck, "c05_q", qitems, 300)
     gflat = eval_items(ck, "c05_g", gitems, 600)
     mflat = eval_items(ck, "c05_m", mitems, 1500)
     sflat = eval_items(ck, "c05_s", sitems, 100)
@@ -396,6 +557,8 @@ def run(ck: Check) -> None:
     bad_m = [i for i in range(len(mwork)) if mflat[i] != "T"]
     bad_s = [i for i in range(len(swork)) if sflat[i] != "T"]
     bad_g = [i for i in range(len(gwork)) if gflat[i] != "T"]
+    bad_p = [i for i in range(len(pwork)) if pflat[3 * i:3 * i + 3] != "TTT"]
+    bad_q = [j for j in range(len(qitems)) if qflat[j] != "T"]
 
     transfer = ["C05_blocks_tile", "C05_block_dims_le", "C05_blocks_row_major", "C05_num_blocks_formula",
                 "C05_grad_blocks_same_index_sets", "C05_merge_small_dims_spec", "C05_multi_dim_split_is_boxes"]
@@ -497,6 +660,75 @@ def run(ck: Check) -> None:
                       {"kind": "gradlayout", "shape": list(w[0]), "thr": w[1], "merge": w[2], "layout": [w[3][0], list(w[3][1]) if w[3][0] == "perm" else w[3][1]], "impl": r,
                        "broken": "Blocking.agree_grad_values", "theorems_not_transferring": ["C05_grad_blocks_same_index_sets"]}, no_failing_input=True)
 
+    # ---- parameter-layout stream -------------------------------------------------------------------
+    def lay_json(lay):
+        return [lay[0], list(lay[1]) if lay[0] == "perm" else lay[1]]
+
+    if bad_p:
+        pidx = sorted(bad_p, key=lambda i: (math.prod(pwork[i][0]), len(pwork[i][0]), i))[:3000]
+        pc = []
+        for i in pidx:
+            w, r = pwork[i], pres[i]
+            if "exc" in r:
+                pc += ["false", "false", "false"]
+            elif "refused" in r:
+                pc += [f"negb (viewable_layout {zs(w[0])} {zs(r['pstr'])} {w[1]} {coq_bool(w[2])})", "true", "true"]
+            else:
+                pc.append(f"andb {coq_bool(r['ok_p'])} (C05_layout_checkb {zs(w[0])} {zs(r['pstr'])} {w[1]} {views(r['pb'])})")
+                pc.append(f"andb {coq_bool(r['ok_u'])} (update_raw_okb {views(r['pb'])} {zs(r['bases'])} {zs(r['raw'])})")
+                pc.append(f"(C05_layout_grad_checkb {zs(w[0])} {zs(r['pstr'])} {views(r['pb'])} {gvals(r['g'])})")
+        pcflat = eval_items(ck, "c05_pchk", pc, 300)
+        pfail = [(i, pcflat[3 * j:3 * j + 3]) for j, i in enumerate(pidx) if pcflat[3 * j:3 * j + 3] != "TTT"]
+        if pfail:
+            i, fl = pfail[0]
+            w, r = pwork[i], pres[i]
+            if "exc" in r:
+                what = f"raised {r['exc']}"
+            elif "refused" in r:
+                what = f"construction refused the parameter ({r['refused']}) although a strided view of the merged shape exists for this layout"
+            elif not r["ok_p"]:
+                what = "the blocks are NOT views of the parameter's own storage (a copy was blocked)"
+            elif fl[0] != "T":
+                what = f"the blocks do not tile the parameter's elements exactly once with dims <= max_preconditioner_dim; blocks={r['pb'][:4]}"
+            elif fl[1] != "T":
+                what = "update_params did not move exactly the elements the blocks address"
+            else:
+                what = "gradient blocks do not cover the index sets of the parameter blocks"
+            ck.report(None, f"Distributor violates C05 on a parameter with a non-default memory layout: shape={list(w[0])} strides={r.get('pstr')} layout={w[3]} "
+                            f"max_preconditioner_dim={w[1]} use_merge_dims={w[2]} gradient={w[4]}: {what}",
+                      {"kind": "paramlayout", "shape": list(w[0]), "thr": w[1], "merge": w[2], "layout": lay_json(w[3]), "gvar": w[4], "impl": r, "n_failing": len(pfail),
+                       "predicate": "storage identity, C05_layout_checkb, update_raw_okb, C05_layout_grad_checkb; a refusal only where viewable_layout = false"})
+        else:
+            w, r = pwork[bad_p[0]], pres[bad_p[0]]
+            ck.report(None, f"model/implementation correspondence broken on the parameter-layout stream ({len(bad_p)} cases; first: shape={list(w[0])} thr={w[1]} merge={w[2]} layout={w[3]}) "
+                            "but the implementation's output still passes the certified checkers",
+                      {"kind": "paramlayout", "shape": list(w[0]), "thr": w[1], "merge": w[2], "layout": lay_json(w[3]), "gvar": w[4], "impl": r,
+                       "broken": "Blocking.agree_param_layout / agree_update / agree_grad_values", "theorems_not_transferring": transfer}, no_failing_input=True)
+
+    # ---- multi-call stream: values-based certified checker on every disagreeing call -------------------
+    if bad_q:
+        qc = []
+        for j in bad_q:
+            qi, ci = qmap[j]
+            r = qres[qi][ci]
+            qc.append("false" if "exc" in r else f"(C05_grad_values_checkb {views(r['p'])} {gvals(r['g'])})")
+        qcflat = eval_items(ck, "c05_qchk", qc, 300)
+        qfail = [j for j, bch in zip(bad_q, qcflat) if bch != "T"]
+        j = (qfail or bad_q)[0]
+        qi, ci = qmap[j]
+        w, r = qwork[qi], qres[qi][ci]
+        rep = {"kind": "multicall", "shapes": [list(sh) for sh in w[0]], "thr": w[1], "merge": w[2], "patterns": [list(pt) for pt in w[3]], "call": ci, "impl": r}
+        if qfail:
+            what = f"raised {r['exc']}" if "exc" in r else (f"gradient blocks carry {[g[1][:4] for g in r['g']][:4]}... but local_masked_blocked_params address "
+                                                           f"{[_ref_offsets(pb)[:4] for pb in r['p']][:4]}... (1000*i + logical index of parameter i)")
+            ck.report(None, f"Distributor violates C05 (gradient block k must cover the index set of the k-th active parameter block) with parameters {rep['shapes']} "
+                            f"max_preconditioner_dim={w[1]} use_merge_dims={w[2]} after call {ci + 1} of the presence patterns {rep['patterns']}: {what}",
+                      dict(rep, n_failing=len(qfail), predicate="C05_grad_values_checkb on (local_masked_blocked_params, returned gradient blocks)"))
+        else:
+            ck.report(None, f"model/implementation correspondence broken on the multi-call stream ({len(bad_q)} calls; first: parameters {rep['shapes']} thr={w[1]} merge={w[2]} "
+                            f"patterns {rep['patterns']} call {ci + 1}) but gradient blocks and active parameter blocks still correspond",
+                      dict(rep, broken="Blocking.agree_multi", theorems_not_transferring=["C05_grad_blocks_same_index_sets"]), no_failing_input=True)
+
     # ---- (b) verdict: implementation vs implementation ---------------------------------------
     inv_bad, exact1, exact2, max1, max2, inv_exc = [], 0, 0, 0.0, 0.0, []
     cfg_hist = {}
@@ -529,7 +761,7 @@ def run(ck: Check) -> None:
     cand = [i for i, (w, r) in enumerate(zip(dwork, dres)) if "exc" not in r and 2 <= w[1] <= 9 and 2 <= r["nb"] <= 6 and len(w[0]) >= 2]
     pick = [cand[len(cand) // 5], cand[len(cand) // 2], cand[-len(cand) // 7]] if len(cand) >= 3 else list(range(min(3, len(dwork))))
     ck.coverage.update({
-        "evaluations": len(ditems) + len(mitems) + len(sitems) + len(gitems) + len(iwork),
+        "evaluations": len(ditems) + len(mitems) + len(sitems) + len(gitems) + len(pitems) + len(qitems) + len(iwork),
         "distinct_nontrivial": len(nontriv),
         "rule": f"every shape of order 0..4 with numel<={maxn} (size-1 dims included) x max_preconditioner_dim in {THRS} x use_merge_dims on/off through a real "
                 "Distributor (2 booleans per case: blocks+gradient blocks+merged dims+count+storage identity; effect of update_params), plus random large shapes "
@@ -540,7 +772,20 @@ def run(ck: Check) -> None:
         "distribution": {"distributor_cases": len(dwork), "orders": ord_hist, "blocks_per_param": nb_hist,
                          "merge_small_dims_random": len(mwork), "multi_dim_split_random": len(swork),
                          "split_blocks_max": max((len(r.get("views", [])) for r in sres), default=0)},
-        "disagreements": {"distributor": len(bad_d), "update": len(bad_u), "merge_small_dims": len(bad_m), "multi_dim_split": len(bad_s), "gradient_layout": len(bad_g)},
+        "disagreements": {"distributor": len(bad_d), "update": len(bad_u), "merge_small_dims": len(bad_m), "multi_dim_split": len(bad_s), "gradient_layout": len(bad_g), "parameter_layout": len(bad_p), "multi_call": len(bad_q)},
+        "parameter_layout_stream": {
+            "rule": f"every shape of order 2..4 with numel<={pmaxn} x max_preconditioner_dim in {list(pthrs)} x merge on/off x layouts of the gradient stream + a row-padded narrow, applied to the PARAMETER; "
+                    "gradient alternately contiguous / stored like the parameter. Accepted: blocks are views of the parameter's storage addressing loc(logical indices of the model's blocks), update_params moves "
+                    "exactly those elements, gradient blocks carry the model's index sets - OR a RuntimeError at construction where Blocking.viewable_layout (a strided view of the merged shape exists) is false. A copy is a violation.",
+            "cases": len(pwork), "accepted_as_views": sum(1 for r in pres if "pb" in r), "refused_at_construction": sum(1 for r in pres if "refused" in r),
+            "blocks_not_in_parameter_storage": sum(1 for r in pres if r.get("ok_p") is False),
+            "gradient_variants": {v: sum(1 for w in pwork if w[4] == v) for v in ("contig", "same")}},
+        "multi_call_stream": {
+            "rule": "2-4 parameters in one Distributor (all 64 three-call sequences for 5 pairs of equal parameters + random ones with equal and unequal block counts, rotated patterns); after every "
+                    "merge_and_block_gradients call local_grad_selector, local_masked_blocked_params (owner parameter + geometry) and the returned gradient blocks (shape, values = 1000*i + logical index) are compared with the model of the current pattern",
+            "sequences": len(qwork), "calls": len(qitems),
+            "same_count_different_pattern_transitions": sum(1 for w, rs in zip(qwork, qres) for a, b, ra, rb in zip(w[3], w[3][1:], rs, rs[1:])
+                                                            if a != b and "sel" in ra and "sel" in rb and sum(ra["sel"]) == sum(rb["sel"]))},
         "gradient_layout_stream": {
             "rule": f"every shape of order 2..4 with numel<={gmaxn} x max_preconditioner_dim in {list(gthrs)} x merge on/off x layouts (storage with reversed dims, last two dims swapped, "
                     "first two swapped, channels_last for order 4, gapped as_strided with doubled strides and storage offset 3); the gradient's values are its logical row-major indices; "
@@ -577,6 +822,15 @@ def replay(obj) -> bool:
         lay = obj["layout"]
         r = gradlayout_case((tuple(obj["shape"]), obj["thr"], bool(obj["merge"]), (lay[0], tuple(lay[1]) if lay[0] == "perm" else lay[1])))
         print("implementation returns", r)
+        print("recorded", obj.get("impl"))
+    elif kind == "paramlayout":
+        lay = obj["layout"]
+        r = paramlayout_case((tuple(obj["shape"]), obj["thr"], bool(obj["merge"]), (lay[0], tuple(lay[1]) if lay[0] == "perm" else lay[1]), obj["gvar"]))
+        print("implementation returns", r)
+        print("recorded", obj.get("impl"))
+    elif kind == "multicall":
+        rs = multicall_case((tuple(tuple(sh) for sh in obj["shapes"]), obj["thr"], bool(obj["merge"]), tuple(tuple(pt) for pt in obj["patterns"])))
+        print("implementation returns (call %d)" % (obj["call"] + 1), rs[obj["call"]])
         print("recorded", obj.get("impl"))
     elif kind == "invariance":
         a = obj["args"]
